@@ -10,15 +10,16 @@ type Family struct {
 	Name       string
 	Prop       string
 	ID         uint64
-	Weight     int // relative share of runs within its property
+	Weight     int  // relative share of runs within its property
 	RaceBuild  bool // runs in the -race build
 	PlainBuild bool // runs in the plain build
 	FaultNames []string
 	ReachNames []string
 	// Run executes one simulated run.
 	Run func(c *simkit.Choice, r *simkit.Rec)
-	// Enum, if non-nil, returns the number of enumerated cases for the given
-	// session seed in fault-enumeration mode; RunEnum executes case i.
+	// Enum, if non-nil, makes the family enumerated: it returns the choice
+	// prefix of the seq-th run of this family for the batch seed.
+	Enum func(seed uint64, seq uint64) []uint32
 }
 
 var families []Family
